@@ -356,9 +356,8 @@ class Ctx:
         self.cov["discharged"] += res["discharged"]
         self.cov.setdefault("theorems", []).extend(res["theorems"])
         self.cov.setdefault("print_assumptions", []).extend(res["assumptions"])
-        cmd = "coqc -Q . QV %s (in /verif/coq, after make of its deps)" % res["file"]
-        if cmd not in self.cov["checker_cmd"]:
-            self.cov["checker_cmd"] = (self.cov["checker_cmd"] + "; " + cmd).strip("; ")
+        if not self.cov["checker_cmd"]:
+            self.cov["checker_cmd"] = "cd /verif/coq && coqc -q -Q . QV %s" % res["file"]
 
     def add_obligation(self, name, ok):
         self.cov["obligations"] += 1
@@ -428,6 +427,8 @@ def standard_proof_step(ctx, make_targets, props_files, search=None):
     obligations.  When a theorem no longer checks: call search(failed) which
     should look for a concrete failing input and report it; if it reports
     nothing, a no-failing-input-found violation is raised here."""
+    ctx.cov["checker_cmd"] = ("cd /verif/coq && make %s && " % " ".join(make_targets)
+                              + " && ".join("coqc -q -Q . QV %s" % p for p in props_files))
     bad = grep_gate()
     if bad:
         ctx.violation("grep-gate", bad[:3], "forbidden declarations in coq/: %s" % bad[:5],
